@@ -49,13 +49,15 @@ def run_check(pid, wt, tier='quick'):
     return rc, lines, round(time.time() - t0, 1)
 
 
-def one(pid, i, keep=False, src=None):
+def one(pid, i, keep=False, src=None, store_as=None):
     src = src or f"/tmp/mut/out/{pid}"
     patch, demo, meta = f"{src}/patch{i}.diff", f"{src}/demo{i}.py", f"{src}/meta{i}.json"
     if not os.path.exists(patch):
         patch, demo, meta = f"{src}/patch.diff", f"{src}/demo.py", f"{src}/meta.json"
-    wt = f"/tmp/mut/{pid}"
+    wt = f"/tmp/mutrun/{pid}"
+    os.makedirs('/tmp/mutrun', exist_ok=True)
     if not os.path.isdir(wt):
+        sh("git -C /repo worktree prune")
         sh(f"git -C /repo worktree add -q --detach {wt} HEAD")
     res = confirm(pid, patch, demo, wt)
     ok = res.get('applies') and res.get('tests_pass') and res.get('demo_clean_rc') == 0 and res.get('demo_mutant_rc') not in (0, None)
@@ -64,9 +66,9 @@ def one(pid, i, keep=False, src=None):
         rc, lines, dt = run_check(pid, wt)
         res.update(check_exit=rc, check_lines=lines[:12], check_s=dt, detected=(rc == 1))
     sh("git checkout -q -- . && git clean -fdq", cwd=wt)
-    print(json.dumps({'id': f"{pid}-{i}", **res}, indent=1))
+    print(json.dumps({'id': f"{pid}-{store_as or i}", **res}, indent=1))
     if keep and ok:
-        d = f"{VERIF}/seeded/{pid}-{i}"
+        d = f"{VERIF}/seeded/{pid}-{store_as or i}"
         os.makedirs(d, exist_ok=True)
         if os.path.abspath(patch) != os.path.abspath(f"{d}/patch.diff"):
             shutil.copy(patch, f"{d}/patch.diff")
@@ -88,4 +90,6 @@ if __name__ == '__main__':
             pid, i = d.split('-')
             one(pid, i, keep=True, src=f"{VERIF}/seeded/{d}")
     else:
-        one(sys.argv[1], sys.argv[2], keep='--keep' in sys.argv)
+        src = sys.argv[sys.argv.index('--src') + 1] if '--src' in sys.argv else None
+        store = sys.argv[sys.argv.index('--as') + 1] if '--as' in sys.argv else None
+        one(sys.argv[1], sys.argv[2], keep='--keep' in sys.argv, src=src, store_as=store)
